@@ -17,7 +17,7 @@ import vlib
 
 THEOREMS = ["C16_race_free", "C16_protected", "C16_unlocked_read_races", "C16_atomic_step", "C16_atomic", "C16_atomic_meaning", "C16_pfx_calls",
             "C16_translation_complete", "C16_lifecycle_balanced", "C16_instance_decided", "C16_instance_outside_known",
-            "C16_admitted_is", "C16_instance_race_free", "C16_instance_all_iterations", "C16_one_section_per_operation", "C16_helpers_lock_free"]
+            "C16_admitted_is", "C16_instance_race_free", "C16_instance_all_iterations", "C16_one_section_per_operation", "C16_helpers_lock_free", "C16_readers_store_nothing"]
 
 KEY_FOR_EACH = "for-each-root-read-before-lock"
 KEY_SPKI_DIFF = "spki-notify-diff-unlocked-traversal"
@@ -80,7 +80,7 @@ def key_of_function(f):
 # ---------------------------------------------------------------------------
 # stress harness
 # ---------------------------------------------------------------------------
-def gen_script(rnd, nops=70, root_toggle=True):
+def gen_script(rnd, nops=70, root_toggle=True, big_keys=False):
     """A cyclic writer script (ends where it starts: both tables empty) and a query set aimed at it."""
     def bits(n, fam):
         w = 32 if fam == "4" else 128
@@ -95,6 +95,9 @@ def gen_script(rnd, nops=70, root_toggle=True):
         pool.append(("4", base[:ln] + "0" * (32 - ln), ln, 24, rnd.randint(1, 5), 1))
     pool.append(("4", base[:16] + "0" * 16, 16, 24, 7, 2))   # same prefix, other source
     kpool = [(rnd.randint(1, 4), rnd.randint(1, 6), rnd.randint(1, 2)) for _ in range(8)]
+    if big_keys:
+        # enough router keys for the hash table to cross its growth steps (32, 64, 128) while readers look keys up
+        kpool = [(rnd.randint(1, 60), rnd.randint(1, 6), rnd.randint(1, 2)) for _ in range(170)]
     kpool = list(dict.fromkeys(kpool))
     live, keys, ops = [], [], []
     fmt = lambda k, r: "op %s%s %s %d %d %d %d" % ((k, r[0]) + r[1:])  # noqa: E731
@@ -117,18 +120,18 @@ def gen_script(rnd, nops=70, root_toggle=True):
                 keys = [k for k in keys if k[2] != srcid]
                 ops.append("op sk %d" % srcid)
             continue
-        if x < 0.4:
+        if x < (0.4 if not big_keys else 0.1):
             c = [r for r in pool if r not in live]
             if c:
                 r = rnd.choice(c)
                 live.append(r)
                 ops.append(fmt("a", r))
-        elif x < 0.7:
+        elif x < (0.7 if not big_keys else 0.15):
             if live:
                 r = rnd.choice(live)
                 live.remove(r)
                 ops.append(fmt("r", r))
-        elif x < 0.85:
+        elif x < 0.85 or (big_keys and len(keys) < 140 and x < 0.97):
             c = [k for k in kpool if k not in keys]
             if c:
                 k = rnd.choice(c)
@@ -148,7 +151,7 @@ def gen_script(rnd, nops=70, root_toggle=True):
         ql = min(w, ln + rnd.randint(0, 6))
         qb = b[:ln] + "".join(rnd.choice("01") for _ in range(ql - ln)) + "0" * (w - ql)
         qs.append("q %s %s %d %d" % (fam, qb, ql, rnd.choice([asn, asn, rnd.randint(1, 5)])))
-    for k in kpool[:6]:
+    for k in kpool[:6] + (kpool[40:46] + kpool[100:104] if big_keys else []):
         qs.append("k %d %d" % (k[0], k[1]))
     return ops, qs
 
@@ -258,6 +261,8 @@ def run(chk):
         plan.append(("gen%d/enum" % i, ops, qs, 4000 if quick else 20000, True, False))
     ops, qs = gen_script(rnd, nops=60)
     plan.append(("notify-diff", ops, qs, 4000 if quick else 20000, False, True))
+    ops, qs = gen_script(rnd, nops=420, big_keys=True)
+    plan.append(("big-key-table", ops, qs, 6000 if quick else 30000, False, False))
     totals = {"validate": 0, "get_all": 0, "search_by_ski": 0, "enumerate": 0, "writer_ops": 0, "overlapped": 0, "diff_calls": 0,
               "unchecked_wide_windows": 0}
     runs, findings = [], {}
